@@ -22,6 +22,7 @@
 #include <sys/stat.h>
 #include <fcntl.h>
 #include <csignal>
+#include "watchdog.h"
 using namespace hsim;
 using namespace photon::fs;
 
@@ -97,11 +98,12 @@ static void exec_op(Script& me, const std::vector<std::string>& op) {
     else if (k == "evict") { emit("evict %s", me.name.c_str()); cfs->get_pool()->evict("/d/file"); }
 }
 static void* run_script(void* arg) { auto& s = *(Script*)arg; for (auto& op : s.ops) exec_op(s, op); emit("end %s", s.name.c_str()); done_sem->signal(1); return nullptr; }
-static void on_alarm(int) { emit("result hung"); flush_trace(); _exit(0); }
+// the program has N s in which the machine runs it (watchdog.h): spinning or blocked in the kernel after that = hung
+static void on_verdict(const char* result) { trace += wd::g_diag; emit("%s", result); flush_trace(); _exit(0); }
 static void on_segv(int sg) { emit("result crashed signal=%d", sg); flush_trace(); _exit(0); }
 
 static int run_program(const std::vector<std::string>& lines) {
-    signal(SIGALRM, on_alarm); alarm(20); signal(SIGSEGV, on_segv); signal(SIGABRT, on_segv);
+    wd::start(nullptr, on_verdict, 20, 1); signal(SIGSEGV, on_segv); signal(SIGABRT, on_segv);
     hsim::init(); photon::verif::hook = nullptr;
     uint64_t refill = 4096; std::string base = "/var/tmp/photon-verif/c17";
     for (auto& l : lines) {
